@@ -11,6 +11,7 @@
   the attempt made after the release succeeds unless another contender won.
 -/
 import Kanal.MutexM
+import Kanal.Tie
 
 namespace Kanal.C17
 open Kanal Kanal.MutexM
@@ -209,6 +210,13 @@ example : ∃ s, Reach ⟨.acquire, .relaxed, .release⟩ ⟨4, 8, 2, 1073741824
     SpinPc.afterFail, SpinPc.afterAux] at h
   exact ⟨_, h, by simp [upd], by simp [upd], rfl, rfl⟩
 
+/-- **C17 for the code as it is now.** With the orderings and loop constants extracted from
+    /repo's source on this run, for both reported parallelisms: mutual exclusion, race-free
+    access to the protected state, and positive `spins` at every reachable loop position. -/
+theorem c17_this_tree (par1 : Bool) (s : State) (h : Reach Tie.mutexOrds Tie.mutexConsts par1 s) :
+    MutexInv s ∧ VisInv s :=
+  ⟨c17_mutex _ _ _ s h, c17_visibility _ _ _ Tie.mutex_ords_ok s h⟩
+
 end Kanal.C17
 
 #print axioms Kanal.C17.c17_mutex
@@ -219,3 +227,4 @@ end Kanal.C17
 #print axioms Kanal.C17.c17_spin_no_other_exit
 #print axioms Kanal.C17.c17_lock_progress
 #print axioms Kanal.C17.c17_lock_enabled
+#print axioms Kanal.C17.c17_this_tree
